@@ -233,6 +233,17 @@ def weed_episodes(run, sb, rng, tier):
         if not e.get("ok"):
             continue
         w = weed_set(rng, samples, k)
+        if i % 4 == 1:
+            # a run of one base longer than k in a sample, and the weed file BEGINS with such a run (the all-A split k-mer is
+            # the number 0 in the packed encoding; with both strands a run of T is the same k-mer)
+            x = "AT"[(i // 4) % 2] if rc else "A"
+            samples_run = ("A" if x == "A" else "T") * (k + 2) + gen.rand_seq(rng, 4)
+            sb.reset()
+            samples[0].append(samples_run)
+            e = sb.build("x", samples, names, k, rc)
+            if not e.get("ok"):
+                continue
+            w.insert(0, x * (k + rng.randint(0, 3)) + gen.rand_seq(rng, rng.randint(0, 5)))
         if pal is not None:
             h = (k - 1) // 2
             w.append(gen.rand_seq(rng, rng.randint(0, 4)) + pal[:h] + (rng.choice("ACGT") if i % 4 == 0 else pal[h]) + pal[h + 1:] + gen.rand_seq(rng, rng.randint(0, 4)))
@@ -262,7 +273,7 @@ def _has_window(r, k):
 def history_episodes(run, sb, rng, tier):
     n_ep = 10 if tier == "quick" else 150
     for i in range(n_ep):
-        k = rng.choice([7, 9, 11, 15, 21, 31, 33, 41])
+        k = [7, 33, 15, 41, 31, 9, 63, 21, 11, 35][i % 10]
         rc = rng.random() < 0.7
         ns = rng.randint(3, 6 if tier == "quick" else 8)
         # repeats inside samples give ambiguity codes
@@ -339,6 +350,9 @@ def history_episodes(run, sb, rng, tier):
                 minf = rng.choice([[0, 1000], [(1000 * j) // n, 1000] if (j := rng.randint(1, n)) else None])
                 sb.align(cur, n, minf, filt, am, rng.random() < 0.3, rng.random() < 0.3)
         sb.weed(cur, None, False, [500, 1000], "no-filter", False, False, False, out="probe_w")
+        # each of the two boolean weed flags alone (64- and 128-bit files go through separate call sites)
+        sb.weed(cur, None, False, [0, 1000], "no-filter", False, True, False, out="probe_mask")
+        sb.weed(cur, None, False, [0, 1000], "no-const", False, False, True, out="probe_nogap")
         sb.delete(cur, [cur_names[0]], out="probe_d") if n > 1 else None
         # observational equivalence with a FRESH file of the same logical content (C10): distance and map
         t = sb.nk(cur)
